@@ -151,6 +151,18 @@ CLAIMS["C15"] = dict(
         "model), f64::total_cmp vs the rational order (no NaN or negative zero can occur).",
    technique="Lean 4 proof (permutation and Pairwise via mergeSort lemmas) + correspondence on real printed output", ref="5.15")
 
+CLAIMS["C10"] = dict(
+   text="Lean 4 theorems (Props/C10.lean): without a recorded capability >= 4 and without -R a DF20/21 reply changes nothing but altitude/squawk; "
+        "code-selected registers are disjoint from status-bit registers; a BDS 1,7 report records MB bits 7/9/13/16/24 and requires bits 29-56 zero; "
+        "a reply is taken as 4,0 / 5,0 / 6,0 only with all status bits set (and 4,0's reserved bits zero) and every shown value is then the Doc 9871 "
+        "decoding of its field (two's complement, scale, floor) - for all field values, both signs; 4,0 and 5,0 fields change only if advertised "
+        "(or -R) and nothing earlier in the precedence matched; a valid, non-zero, plausible 5,0 register is recognised and, once gating allows, "
+        "decoded (completeness for 5,0; for 4,0 and 6,0 completeness is exercised by the check, not proved). Correspondence and oracle: registers "
+        "from physical values, plausibility boundaries +-1 LSB, invalid variants, random MB, all gate states, -R/-U, against an independent decoder.",
+   note="trusted: Lean kernel and standard axioms; harness; Spec/Bds.lean and the check's own register layouts (reading of Doc 9871); Mach is carried "
+        "as the raw field (f64 multiply by 0.004 not modelled; the <= 1.0 test is raw <= 250).",
+   technique="Lean 4 proof (field lemmas, omega on two's-complement arithmetic, cascade precedence) + model/implementation correspondence + independent register oracle", ref="5.10")
+
 NOT_YET = "check not built yet in this revision; listed so that the manifest stays truthful while the framework grows"
 
 def main():
